@@ -10,7 +10,7 @@ Verdict rules (DESIGN.md 2.6):
   exit 1  "VIOLATION property=<id> replay=<path>"
   exit 2  infrastructure problem (never a violation)
 """
-import json, os, re, shutil, subprocess, sys, time, random, hashlib
+import json, os, re, shutil, subprocess, sys, time, random, hashlib, threading
 
 VERIF = os.path.dirname(os.path.dirname(os.path.abspath(__file__)))
 REPO = os.environ.get("VERIF_REPO", "/repo")
@@ -117,6 +117,7 @@ class Ctx:
         self.known_seen = []
         self.notes = []
         self._n = 0
+        self._lock = threading.RLock()   # ctx.tmp / ctx.tlc may be used from worker threads
 
     # ---------------------------------------------------------------- misc
     @property
@@ -130,9 +131,9 @@ class Ctx:
         shutil.rmtree(self.scratch, ignore_errors=True)
 
     def tmp(self, name):
-        self._n += 1
-        p = os.path.join(self.scratch, "%02d-%s" % (self._n, name))
-        return p
+        with self._lock:
+            self._n += 1
+            return os.path.join(self.scratch, "%02d-%s" % (self._n, name))
 
     def replay_dir(self):
         d = os.path.join(VERIF, "replays", self.pid)
